@@ -139,6 +139,22 @@ def run_case(ctx, i, rng):
                     ctx.count("very_long_names")
                 except ValueError:
                     pass
+        if i % 20 == 13:
+            # a LARGE file (beyond 64 KiB of text): hundreds of renamed instances with string properties in the top cell
+            topd_ = n.top_instance.reference
+            leafs_ = [d_ for l in n.libraries for d_ in l.definitions if d_.is_leaf() and d_ is not topd_ and
+                      (d_.library is topd_.library or True)]
+            leafs_ = [d_ for d_ in leafs_ if d_.library is topd_.library] or []
+            if leafs_:
+                lf_ = leafs_[0]
+                pad_ = "x" * rng.randint(1, 40)
+                for k_ in range(rng.randint(650, 900)):
+                    try:
+                        c_ = topd_.create_child("blk/grp%04d/u%s" % (k_, pad_), reference=lf_)
+                        c_["EDIF.properties"] = [{"identifier": "LOC", "value": "SLICE_X%dY%d %s" % (k_ % 50, k_ // 50, pad_)}]
+                    except ValueError:
+                        break
+                ctx.count("large_files")
         st = gen_ir.shape_stats(n)
         c0 = canon.canon_edif(n, with_identifiers=False)
         has_bus = any(N[1] > 1 for L in c0["libs"].values() for C in L["cells"].values() for N in C["nets"].values())
